@@ -38,6 +38,11 @@ Definition rect_to_int_rect (r : qrect) : irect :=
 Definition to_int_rect_panics (r : qrect) : bool :=
   match rect_to_int_rect_opt r with Some _ => false | None => true end.
 
+(* tiny_skia_path::IntRect::translate: IntRect::from_xywh(x + tx, y + ty, w, h) *)
+Definition irect_translate (r : irect) (tx ty : Z) : option irect :=
+  irect_from_xywh (ix r + tx) (iy r + ty) (iw r) (ih r).
+Definition opt_unwrap_or {A : Type} (o : option A) (d : A) : A := match o with Some x => x | None => d end.
+
 Definition Qfloor_q (q : Q) : Q := inject_Z (Qfloor q).
 Definition Qceil_q (q : Q) : Q := inject_Z (Qceiling q).
 Definition ts_post_concat (a b : ts) : ts := ts_concat b a.
